@@ -211,3 +211,28 @@ package ast
 //@   props C01
 //@   pure
 //@   ensures[the-predicate] result == nodeSem(node.Predicate, st(s))
+
+// ---- set functions that are not comparisons: count / isEmpty keep the set symbol and, for a sub-query, its filter ----
+//@ func (*SetFunctionNode).TypeTransform
+//@   props C01 C10
+//@   modifies *
+//@   ensures[count-keeps-the-sub-query] result1 == nil && node.setFunction == SetFunctionCount ==> istype(result0, *CountSetExprNode) && (istype(node.symbol, *subQueryNode) ==> as(result0, *CountSetExprNode).query == as(node.symbol, *subQueryNode).query && as(result0, *CountSetExprNode).symbol == as(node.symbol, *subQueryNode).symbol) && (!istype(node.symbol, *subQueryNode) ==> as(result0, *CountSetExprNode).query == nil && as(result0, *CountSetExprNode).symbol == node.symbol)
+//@   ensures[isEmpty-keeps-the-sub-query] result1 == nil && node.setFunction == SetFunctionIsEmpty ==> istype(result0, *IsEmptySetExprNode) && (istype(node.symbol, *subQueryNode) ==> as(result0, *IsEmptySetExprNode).query == as(node.symbol, *subQueryNode).query && as(result0, *IsEmptySetExprNode).symbol == as(node.symbol, *subQueryNode).symbol) && (!istype(node.symbol, *subQueryNode) ==> as(result0, *IsEmptySetExprNode).query == nil && as(result0, *IsEmptySetExprNode).symbol == node.symbol)
+
+// ---- the float view of an integer-valued node ----
+//@ func (*AnyTypeSymbolNode).ToFloat64
+//@   props C01
+//@   pure
+//@   ensures[an-any-typed-symbol-is-its-own-float-view] result != nil && istype(result, *AnyTypeSymbolNode) && as(result, *AnyTypeSymbolNode) == node
+//@ func (*Int64SymbolNode).ToFloat64
+//@   props C01
+//@   pure
+//@   ensures[widening-wrapper] result != nil && istype(result, *Int64ToFloat64Node) && istype(as(result, *Int64ToFloat64Node).wrapped, *Int64SymbolNode) && as(as(result, *Int64ToFloat64Node).wrapped, *Int64SymbolNode) == node
+//@ func (*CountSetExprNode).ToFloat64
+//@   props C01
+//@   pure
+//@   ensures[widening-wrapper] result != nil && istype(result, *Int64ToFloat64Node) && istype(as(result, *Int64ToFloat64Node).wrapped, *CountSetExprNode) && as(as(result, *Int64ToFloat64Node).wrapped, *CountSetExprNode) == node
+//@ func (*Int64ConstNode).ToFloat64
+//@   props C01
+//@   pure
+//@   ensures[the-same-number] result != nil && istype(result, *Float64ConstNode) && as(result, *Float64ConstNode).value == real(node.value)
